@@ -990,7 +990,7 @@ def main(tier):
         f = chk.finding_for(name)
         if f:
             known[name] = (f['what'], log_class(sc))
-    timeout = 8000 if tier == 'quick' else 60000
+    timeout = 4000 if tier == 'quick' else 60000
     only = lambda n: n.startswith(PID + '.')
     common = dict(known=known, witness_terms=witness_terms, timeout_ms=timeout, deadline_s=3600, path_timeout_ms=30000, only=only)
     inlined = run_families(chk, families(tier), Scoped, common,
